@@ -63,7 +63,7 @@ func checkC17(c *Ctx) {
 		c.Undecided("C17-R1", "encodeRune/CanDisplay", "-", "not found")
 		return
 	}
-	checkEncodeDst(c, p, enc, "C17-R7")
+	checkEncodeDst(c, p, transformHost(p, enc), "C17-R7")
 	if len(callsIn(can, func(_ string, cc *ssa.CallCommon) bool { return cc.IsInvoke() && cc.Method.Name() == "Transform" })) > 0 {
 		checkEncodeDst(c, p, can, "C17-R7")
 	} else {
@@ -90,21 +90,32 @@ func checkC17(c *Ctx) {
 		}
 		return true
 	}
-	// encodeRune: the append of the encoder's output
+	// encodeRune: the append of the encoder's output — or, when a helper transcodes the rune, the
+	// return by which the helper hands the output out
 	okF, detailF := false, "no append of the encoder's output found"
-	eachInstr(enc, func(in ssa.Instruction) {
-		call, ok := in.(*ssa.Call)
-		if !ok {
+	encHost := transformHost(p, enc)
+	eachInstr(encHost, func(in ssa.Instruction) {
+		var sl *ssa.Slice
+		switch x := in.(type) {
+		case *ssa.Call:
+			if b, isB := x.Call.Value.(*ssa.Builtin); !isB || b.Name() != "append" || len(x.Call.Args) != 2 {
+				return
+			}
+			sl, _ = x.Call.Args[1].(*ssa.Slice)
+		case *ssa.Return:
+			if encHost == enc {
+				return
+			}
+			for _, r := range x.Results {
+				if s2, isSl := r.(*ssa.Slice); isSl {
+					sl = s2
+				}
+			}
+		}
+		if sl == nil || sl.High == nil || !strings.HasPrefix(encNorm(sl.High), "T#0") {
 			return
 		}
-		if b, isB := call.Call.Value.(*ssa.Builtin); !isB || b.Name() != "append" || len(call.Call.Args) != 2 {
-			return
-		}
-		sl, isSl := call.Call.Args[1].(*ssa.Slice)
-		if !isSl || sl.High == nil || !strings.HasPrefix(encNorm(sl.High), "T#0") {
-			return
-		}
-		m := encAtoms(rawGuardsAt(call.Block()))
+		m := encAtoms(rawGuardsAt(in.Block()))
 		okF = hasAll(m)
 		detailF = fmt.Sprintf("the encoded bytes are appended under %v", sortedKeys(m))
 	})
@@ -225,7 +236,49 @@ func checkC17(c *Ctx) {
 		return false
 	}
 	c.Check(len(cAcs) == 1 && !dep(cAcs[0]), "C17-R2", "CanDisplay:acs-always", p.pos(can.Pos()), "terminal ACS glyphs count regardless of checkFallbacks")
-	c.Check(len(cFb) == 1 && dep(cFb[0]), "C17-R2", "CanDisplay:fallback-only-if-asked", p.pos(can.Pos()), "registered fallbacks count only with checkFallbacks")
+	// the lookup is made only when asked for, or (made anyway) its outcome is used only where
+	// checkFallbacks is known to hold (`isACS || (checkFallbacks && hasFallback)`)
+	okFb := len(cFb) == 1 && dep(cFb[0])
+	if len(cFb) == 1 && !okFb {
+		gated := func(b *ssa.BasicBlock) bool {
+			for _, a := range guardsAt(b) {
+				if a.L == "checkFallbacks" && ((a.Op == "==" && a.R == "true") || (a.Op == "!=" && a.R == "false")) {
+					return true
+				}
+			}
+			return false
+		}
+		nUse, allGated := 0, true
+		for _, r := range referrers(cFb[0].(ssa.Value)) {
+			ex, isEx := r.(*ssa.Extract)
+			if !isEx || ex.Index != 1 {
+				continue
+			}
+			for _, u := range referrers(ex) {
+				switch x := u.(type) {
+				case *ssa.Phi:
+					for i, e := range x.Edges {
+						if e == ssa.Value(ex) {
+							nUse++
+							if !gated(x.Block().Preds[i]) {
+								allGated = false
+							}
+						}
+					}
+				case *ssa.If:
+					nUse++
+					if !gated(x.Block()) {
+						allGated = false
+					}
+				default:
+					nUse++
+					allGated = false
+				}
+			}
+		}
+		okFb = nUse > 0 && allGated
+	}
+	c.Check(okFb, "C17-R2", "CanDisplay:fallback-only-if-asked", p.pos(can.Pos()), "registered fallbacks count only with checkFallbacks")
 	c17Acs(c, p)
 	c17Charset(c, p)
 	// ---- R5
